@@ -126,7 +126,11 @@ def intern_memo(ctx, crate, crs, tag):
             continue
         allocs = q.calls_on_field(b, AP + "alloc", POOL, arena)
         ok = len(allocs) == 1 and allocs[0][1]["dest"]["l"] == 0
-        ctx.ob("intern-memo" + tag, b.key, "unique-id-per-call", ok, b.loc(), "every call allocates and returns a new id")
+        if ok:
+            # ... on every path: no early return hands out an id that exists already (seed C18-13)
+            dom = b.dominators()
+            ok = all(allocs[0][0] in dom.get(r, set()) for r in b.return_blocks())
+        ctx.ob("intern-memo" + tag, b.key, "unique-id-per-call", ok, b.loc(), "every call allocates and returns a new id, on every path")
     for fn, arena in RESOLVE:
         b = body_by_key(crate, PP + fn)
         if b is None:
